@@ -62,7 +62,7 @@ type c13PipeCase struct {
 func genC13Pipe(t *rapid.T) *c13PipeCase {
 	c := &c13PipeCase{Kind: rapid.SampledFrom([]string{"encode", "encode", "encode", "decode-vp8gen"}).Draw(t, "kind")}
 	if c.Kind == "encode" {
-		c.Img = gen.DrawImg(t, gen.ImgCfg{MaxSide: 56, BigChance: 3, BigSide: 130, ThinPermille: 30})
+		c.Img = gen.DrawImg(t, gen.ImgCfg{MaxSide: 56, BigChance: 3, BigSide: 130, ThinPermille: 30, LargePermille: 4})
 		if rapid.IntRange(0, 2).Draw(t, "lossless") == 0 {
 			c.Opts = gen.DrawLosslessOpts(t)
 		} else {
